@@ -901,7 +901,7 @@ theorem rawCost_spec (fixed oc : Bool) (csv : Str → Outcome (List Str))
     rw [hb] at h
     simp only at h
     split at h
-    · cases h
+    · split at h <;> cases h
     · rename_i hpad
       cases hs : buildChecked b.trie with
       | err => rw [hs] at h; cases h
